@@ -17,7 +17,8 @@ core.PROC_TIMEOUT = float(os.environ.get("VERIF_C16_TIMEOUT", "20"))
 ID = "C16"
 LEVEL = "exploration"
 RULE = ("lane B: one of ~1840 real source files (tests/source, tests/target, src) x 0-3 token-level mutations (delete, "
-        "duplicate, swap, truncate incl. mid-token, delimiter imbalance, non-ASCII insertion) x swarm configuration "
+        "duplicate, swap, truncate incl. mid-token, delimiter imbalance, non-ASCII insertion) and/or an arbitrary re-layout "
+        "(all whitespace redrawn, breaks inserted at token boundaries) x swarm configuration "
         "(max_width 20..200 and >= 5*tab_spaces, tab_spaces 1..8, hard_tabs, style edition, error_on_line_overflow / "
         "error_on_unformatted always drawn, up to 6 more options) x delivery (root path, out-of-line module of a tiny "
         "root, stdin) x nesting amplifier (<= 32 levels); lane C: injected panic at each of the seven containment sites "
@@ -102,8 +103,40 @@ def draw_config(rng):
     return opts
 
 
+USE_LEAVES = ["a", "b::c", "self", "*", "d as e", "_f as _", "r#g", "super::h", "crate::i", "{}", "j::{}", "k::{self}",
+              "l::{m, n}", "o::{p::{q, r}, s}", "t::{}", "{u, v}", "w::*", "x::{self as y}", "z::{*}"]
+
+
+def gen_use_group(rng):
+    """a run of use declarations with legal but unusual shapes"""
+    out = []
+    for _ in range(rng.range(2, 7)):
+        vis = rng.choice(["", "", "pub ", "pub(crate) "])
+        lead = rng.choice(["", "", "::"])
+        root = rng.choice(["", "", "std::", "crate::", "a::", "a::b::", "c::"])
+        leafs = rng.sample(USE_LEAVES, rng.range(1, 4))
+        body = leafs[0] if len(leafs) == 1 and rng.chance(60) else "{%s}" % ", ".join(leafs)
+        if root == "" and body in ("*", "self") or (lead and root in ("crate::", "")):
+            body = "{%s}" % body if body in ("*",) else body
+            lead = ""
+        attr = rng.choice(["", "", "", "#[cfg(unix)]\n", "// note\n", "#[allow(unused)] "])
+        out.append("%s%suse %s%s%s;\n" % (attr, vis, lead, root, body))
+        if rng.chance(15):
+            out.append("\n")
+    return "".join(out)
+
+
 def generate(rng, tier):
-    lane = "C" if rng.chance(12) else "B"
+    lane = "C" if rng.chance(12) else ("G" if rng.chance(10) else "B")
+    if lane == "G":
+        text = gen_use_group(rng) + gen_rust.unformatted(rng, 1) + (gen_use_group(rng) if rng.chance(30) else "")
+        cfg = draw_config(rng)
+        for k in rng.sample(["imports_granularity", "group_imports", "reorder_imports", "imports_layout", "imports_indent"], rng.range(1, 4)):
+            cfg[k] = rng.choice(EXTRA_OPTS.get(k, [True, False]))
+        return {"lane": "B", "source": "grammar:use-group", "text": text, "mutations": ["grammar"] + (["delete"] if rng.chance(30) else []),
+                "depth": 0, "badutf8": False, "delivery": rng.choice(["root", "stdin"]), "config": cfg,
+                "hashseed": rng.below(1 << 32), "via": rng.choice(["file", "cli"]), "emit": rng.choice([[], ["--check"]]),
+                "postmutate": rng.chance(30)}
     if lane == "C":
         site = rng.choice(SITES)
         return {"lane": "C", "site": site, "nth": rng.choice(["1", "1", "2", "3", "*"]), "hashseed": rng.below(1 << 32),
@@ -120,6 +153,9 @@ def generate(rng, tier):
         text = text[:40000]
     nmut = rng.choice([0, 0, 1, 1, 1, 2, 3])
     text, desc = rustlex.mutate(rng, text, nmut)
+    if rng.chance(20):
+        text = rustlex.relayout(rng, text)
+        desc = desc + ["relayout"]
     depth = 0
     if rng.chance(15):
         depth = rng.choice([4, 8, 16, 24, 32])
@@ -149,7 +185,7 @@ def execute(case):
             return _lane_c(case, v, sc)
         files = {}
         cfg = dict(case["config"])
-        data = case["text"].encode("utf-8")
+        data = case["text"].encode("utf-8", "replace")
         if case["badutf8"]:
             data = data[: len(data) // 2] + b"\xff\xfe" + data[len(data) // 2:]
         import base64
